@@ -1,0 +1,19 @@
+//go:build verif
+
+package protectedmemory
+
+import (
+	"github.com/godaddy/asherah/go/securememory"
+	"github.com/godaddy/asherah/go/securememory/internal/memcall"
+)
+
+// VerifNewSecretFactory returns a SecretFactory that issues its memory calls through mc.
+// It is only available when built with the verif build tag.
+func VerifNewSecretFactory(mc memcall.Interface) *SecretFactory {
+	return &SecretFactory{mc: mc}
+}
+
+// VerifCreateRandom is CreateRandom with an injectable random source.
+func (f *SecretFactory) VerifCreateRandom(size int, readFunc func(b []byte) (n int, err error)) (securememory.Secret, error) {
+	return f.createRandom(size, readFunc)
+}
